@@ -48,20 +48,37 @@ let parse_msg (b : int array) : msg option =
   let u8 o = if o < n then b.(o) else raise Bad in
   let u16 o = (u8 o) * 256 + u8 (o + 1) in
   let u32 o = (u16 o) * 65536 + u16 (o + 2) in
-  (* returns (labels joined with '.', next offset); follows pointers for the text only *)
-  let rec name o depth acc =
-    if depth > 64 then raise Bad;
-    let l = u8 o in
-    if l = 0 then (String.concat "." (List.rev acc), o + 1)
-    else if l land 0xC0 = 0xC0 then begin
-      let tgt = ((l land 0x3F) lsl 8) lor u8 (o + 1) in
-      if tgt >= o then raise Bad;
-      let (s, _) = name tgt (depth + 1) acc in (s, o + 2) end
-    else if l > 63 then raise Bad
-    else begin
-      ignore (u8 (o + l));
-      let lab = String.init l (fun i -> Char.chr b.(o + 1 + i)) in
-      name (o + 1 + l) depth (lab :: acc) end in
+  (* ares_dns_name_parse: labels joined with '.', reserved characters escaped with a backslash,
+     non-printable bytes as \DDD; a pointer must lead before the lowest label start seen so far *)
+  let name start (_ : int) (_ : string list) =
+    let buf = Buffer.create 32 in
+    let pos = ref start and label_start = ref start and save = ref (-1) and fin = ref false in
+    while not !fin do
+      if !label_start > !pos then label_start := !pos;
+      let c = u8 !pos in
+      incr pos;
+      if c land 0xC0 = 0xC0 then begin
+        let off = ((c land 0x3F) lsl 8) lor u8 !pos in
+        incr pos;
+        if off >= !label_start then raise Bad;
+        if !save < 0 then save := !pos;
+        pos := off
+      end else if c land 0xC0 <> 0 then raise Bad
+      else if c = 0 then fin := true
+      else begin
+        if Buffer.length buf <> 0 then Buffer.add_char buf '.';
+        for i = 0 to c - 1 do
+          let ch = u8 (!pos + i) in
+          if ch < 0x20 || ch > 0x7E then Buffer.add_string buf (Printf.sprintf "\\%03d" ch)
+          else begin
+            if List.mem (Char.chr ch) ['"'; '.'; ';'; '\\'; '('; ')'; '@'; '$'] then Buffer.add_char buf '\\';
+            Buffer.add_char buf (Char.chr ch)
+          end
+        done;
+        pos := !pos + c
+      end
+    done;
+    (Buffer.contents buf, (if !save >= 0 then !save else !pos)) in
   try
     if n < 12 then raise Bad;
     let flags = u16 2 in
@@ -76,6 +93,7 @@ let parse_msg (b : int array) : msg option =
       let t = u16 o and c = u16 (o + 2) in
       qs := (nm, t, c) :: !qs; off := o + 4
     done;
+    let cookie_seen = ref false in
     let opt = ref false and cookie = ref None and nopts = ref 0 and tag = ref None and minttl = ref 0xFFFFFFFF
     and soa = ref false and ext = ref 0 in
     for i = 1 to an + ns + ar do
@@ -89,13 +107,17 @@ let parse_msg (b : int array) : msg option =
         while !p + 4 <= rd + rdlen do
           let code = u16 !p and len = u16 (!p + 2) in
           if !p + 4 + len > rd + rdlen then raise Bad;
-          if code = 10 then cookie := Some (List.init len (fun j -> b.(!p + 4 + j))) else incr nopts;
+          (* ares_dns_rr_get_opt_byid returns the FIRST option with the id *)
+          if code = 10 then begin
+            (* ... and ares_dns_cookie_fetch yields NULL for an option without content *)
+            if not !cookie_seen then (cookie_seen := true; if len > 0 then cookie := Some (List.init len (fun j -> b.(!p + 4 + j))))
+          end else incr nopts;
           p := !p + 4 + len
         done end
       else begin
         if t = 6 then soa := true
         else if t <> 24 && ttl < !minttl then minttl := ttl;
-        if t = 1 && rdlen = 4 && b.(rd) = 11 && i <= an then
+        if t = 1 && rdlen = 4 && b.(rd) = 11 && i <= an && !tag = None then
           tag := Some (b.(rd + 1) * 65536 + b.(rd + 2) * 256 + b.(rd + 3)) end;
       off := rd + rdlen
     done;
@@ -168,10 +190,10 @@ let stats : (string, int) Hashtbl.t = Hashtbl.create 64
 let bump k = Hashtbl.replace stats k (1 + (try Hashtbl.find stats k with Not_found -> 0))
 
 type txinfo = { t_sock : int; t_srv : int; t_tcp : bool; t_msg : msg }
-type readrec = { r_sock : int; r_src : int; r_pkt : packet; r_snap : chan }
+type readrec = { r_sock : int; r_src : int; r_pkt : packet; r_snap : chan; r_now : chan }
 type pending = { pn_tok : int; pn_name : string; pn_type : int; pn_class : int; pn_rd : bool; pn_cd : bool;
                  pn_edns : bool; mutable pn_tx : txinfo option; mutable pn_cb_nodata : int option;
-                 mutable pn_hit : bool }
+                 mutable pn_hit : bool; mutable pn_created : bool; pn_wrapped : bool }
 
 let class_num s = match s with "IN" -> 1 | "CH" -> 3 | "HS" -> 4 | "ANY" -> 255 | _ -> int_of_string s
 let type_num s = match s with "A" -> 1 | "NS" -> 2 | "CNAME" -> 5 | "SOA" -> 6 | "PTR" -> 12 | "MX" -> 15
@@ -183,7 +205,7 @@ let run_case k (caseline : string) (lines : string list) =
   let geti key d = match field cfgw key with Some v -> (try int_of_string v with _ -> d) | None -> d in
   let flags = match field cfgw "flags" with Some v -> split_on ',' v | None -> [] in
   let has f = List.mem f flags in
-  let nservers = geti "servers" 1 in
+  let nservers = geti "servers" 1 + geti "servers6" 0 in
   let tries = geti "tries" 3 in
   let qttl = geti "qcachettl" 3600 in
   let cfg = fixed_cfg (has "dns0x20") (has "igntc") (has "nocheckresp") (has "usevc")
@@ -197,7 +219,8 @@ let run_case k (caseline : string) (lines : string list) =
   let addr_id a = match Hashtbl.find_opt addr_tbl a with Some i -> i | None ->
     let i = 1000 + Hashtbl.length addr_tbl in Hashtbl.add addr_tbl a i; i in
   let strip_port a = match String.rindex_opt a ':' with Some i -> String.sub a 0 i | None -> a in
-  let srv_addr i = addr_id (Printf.sprintf "10.0.0.%d" (i + 1)) in
+  let n4 = geti "servers" 1 and n6 = geti "servers6" 0 in
+  let srv_addr i = addr_id (if i < n4 then Printf.sprintf "10.0.0.%d" (i + 1) else Printf.sprintf "[fd00::%x]" (i - n4 + 1)) in
   let ck0 = { ck_state = zi 0; ck_client = List.init 8 (fun _ -> zi 0); ck_server = []; ck_uts_sec = zi 0; ck_uts_usec = zi 0 } in
   let st = ref (init_chan (List.init nservers (fun i -> { sv_idx = zi i; sv_addr = zi (srv_addr i); sv_cookie = ck0 }))) in
   let snap = ref !st in
@@ -213,13 +236,16 @@ let run_case k (caseline : string) (lines : string list) =
   let seg_tx : (int * txinfo) list ref = ref [] in            (* (qid, tx) written in this segment, latest first *)
   let ended_nodata : (int * int) list ref = ref [] in         (* (token, status) *)
   let pending_new : pending list ref = ref [] in
-  let cur_req : pending option ref = ref None in
+  let req_stack : pending list ref = ref [] in
+  let wrapped_tok : (int, unit) Hashtbl.t = Hashtbl.create 8 in
   let cur_op : string list ref = ref [] in
   let auth_delivered : (int, (string * int * int) list) Hashtbl.t = Hashtbl.create 16 in  (* tag -> question of the query it answered *)
   let marks_used : int list ref = ref [] in   (* tags already used to justify a success mark *)
   let last_view : view option ref = ref None in
   let dirty = ref false in
   let prev_recv = ref (-1) in
+  let last_new : query option ref = ref None in
+  let in_cancel = ref false in
   let label = ref "nolabel" in
   let n_read = ref 0 and n_deliv = ref 0 and n_hit = ref 0 in
   let feats : (string, unit) Hashtbl.t = Hashtbl.create 8 in
@@ -289,6 +315,7 @@ let run_case k (caseline : string) (lines : string list) =
         | Some q ->
           let (outs, chosen) = do_new pn (Some q.v_id) in
           if outs <> [] then diff "model answers t%d from the cache, implementation created a query" pn.pn_tok;
+          last_new := find_mq q.v_id;
           (match chosen with
            | Some c when c <> q.v_id -> diff "generate_unique_qid: model chose %d, implementation %d" c q.v_id
            | _ -> ())
@@ -304,11 +331,23 @@ let run_case k (caseline : string) (lines : string list) =
     (* queries the library created for itself (server probes): ARES_SEND_FLAG_NOCACHE|NORETRY *)
     List.iter (fun vq ->
         if vq.v_tok = None && find_mq vq.v_id = None then begin
-          match List.find_opt (fun (id, _) -> id = vq.v_id) !seg_tx with
-          | None -> diff "internal query id=%d without a transmission" vq.v_id
-          | Some (_, t) ->
-            let pn = { pn_tok = -1; pn_name = ""; pn_type = 0; pn_class = 0; pn_rd = false; pn_cd = false; pn_edns = false;
-                       pn_tx = Some t; pn_cb_nodata = None; pn_hit = false } in
+          let pn_opt = match List.find_opt (fun (id, _) -> id = vq.v_id) !seg_tx with
+            | Some (_, t) ->
+              Some { pn_tok = -1; pn_name = ""; pn_type = 0; pn_class = 0; pn_rd = false; pn_cd = false; pn_edns = false;
+                     pn_tx = Some t; pn_cb_nodata = None; pn_hit = false; pn_created = true; pn_wrapped = false }
+            | None ->
+              (* nothing transmitted yet (TCP not connected): a probe re-asks the question of the
+                 request that triggered it, i.e. the one just submitted *)
+              (match !last_new with
+               | Some (q : query) ->
+                 (match q.q_qd with
+                  | [qn] -> Some { pn_tok = -1; pn_name = string_of_bytes qn.qn_name; pn_type = iz qn.qn_type; pn_class = iz qn.qn_class;
+                                   pn_rd = q.q_rd; pn_cd = q.q_cd; pn_edns = q.q_has_opt; pn_tx = None; pn_cb_nodata = None; pn_hit = false; pn_created = true; pn_wrapped = false }
+                  | _ -> None)
+               | None -> None) in
+          match pn_opt with
+          | None -> diff "internal query id=%d without a transmission and without a triggering request" vq.v_id
+          | Some pn ->
             let (_, chosen) = do_new ~internal:true pn (Some vq.v_id) in
             Hashtbl.replace feats "probe" ();
             (match chosen with
@@ -384,7 +423,14 @@ let run_case k (caseline : string) (lines : string list) =
     seg_tx := []; seg_reads := []; marks_used := [];
     last_view := Some v; dirty := false;
     snap := !st in
-  (* ----- one datagram read from a socket ----- *)
+  (* ----- datagrams read from sockets are fed to the model LAZILY, in log order -----
+     The library reads a whole batch first (RECVFROM lines) and then processes it packet by
+     packet; a callback run for packet i may submit a new request (oncb, search/getaddrinfo
+     follow-ups) before packet i+1 is processed.  Reads are therefore queued and fed only when an
+     observed effect has to be explained, or when the batch is known to be over. *)
+  let pending_reads : (int * (int array * int)) Queue.t = Queue.create () in
+  let batch_callbacks = ref 0 in          (* data callbacks produced by the reads fed in this batch *)
+  let internal_delivered : (int, unit) Hashtbl.t = Hashtbl.create 8 in   (* tags handed to the library's own callbacks *)
   let feed sock (b, src) =
     incr n_read;
     let (d, _) = datagram_of b in
@@ -393,7 +439,7 @@ let run_case k (caseline : string) (lines : string list) =
     | Some _ ->
       (match d with
        | DParsed p ->
-         seg_reads := { r_sock = sock; r_src = src; r_pkt = p; r_snap = !snap } :: !seg_reads;
+         seg_reads := { r_sock = sock; r_src = src; r_pkt = p; r_snap = !snap; r_now = !st } :: !seg_reads;
          let r = iz (reject_reason cfg !st (zi sock) (zi src) p) in
          bump (Printf.sprintf "spec-%s" (match r with 0 -> "authentic" | 1 -> "reject-id" | 2 -> "reject-question"
                                                      | 3 -> "reject-connection" | 4 -> "reject-source" | 5 -> "reject-qr"
@@ -403,20 +449,77 @@ let run_case k (caseline : string) (lines : string list) =
        | DMalformed _ -> bump "datagram-malformed"; Hashtbl.replace feats "malformed" ()
        | DEmpty -> bump "datagram-empty");
       let outs = apply (ERead (zi sock, zi src, zi (now_sec ()), zi (now_usec ()), d)) (Printf.sprintf "ERead s%d" sock) in
-      List.iter (fun o -> Queue.add o expected) outs in
+      List.iter (fun o ->
+          (match o with
+           | OCallback (t, _, Some tg) -> incr batch_callbacks; if iz t < 0 then Hashtbl.replace internal_delivered (iz tg) ()
+           | _ -> ());
+          Queue.add o expected) outs in
+  let feed_one () = let (sk, x) = Queue.pop pending_reads in feed sk x in
+  let flush_reads () = while not (Queue.is_empty pending_reads) do feed_one () done in
   let rec skip_unobservable () =
     if not (Queue.is_empty expected) then
       match Queue.peek expected with
       | OCacheInsert _ | OConnError _ -> ignore (Queue.pop expected); skip_unobservable ()
       | OCallback (t, _, _) when iz t < 0 -> ignore (Queue.pop expected); skip_unobservable ()
       | _ -> () in
-  let tag_re = Str.regexp ":11\\.\\([0-9]+\\)\\.\\([0-9]+\\)\\.\\([0-9]+\\)[],/]" in
+  (* feed reads until the model predicts something observable (or the batch is exhausted) *)
+  let want_output () =
+    skip_unobservable ();
+    while Queue.is_empty expected && not (Queue.is_empty pending_reads) do feed_one (); skip_unobservable () done in
+  let real_sync v = flush_reads (); sync v; batch_callbacks := 0 in
+  (* a transmission under an id the model does not know: the query is created now *)
+  let create_from_tx (t : txinfo) =
+    let id = t.t_msg.m_id in
+    let (vtok, vnore) = match !last_view with
+      | Some v -> (match List.find_opt (fun q -> q.v_id = id) v.vqs with Some q -> (q.v_tok, q.v_nore) | None -> (None, false))
+      | None -> (None, false) in
+    let pn = match vtok, !req_stack with
+      | Some tk, (top : pending) :: _ when top.pn_tok = tk && not top.pn_created -> top.pn_created <- true; top.pn_tx <- Some t; top
+      | _ -> { pn_tok = -1; pn_name = ""; pn_type = 0; pn_class = 0; pn_rd = false; pn_cd = false; pn_edns = false;
+               pn_tx = Some t; pn_cb_nodata = None; pn_hit = false; pn_created = true; pn_wrapped = false } in
+    (* queries created before this one that have not transmitted yet (TCP connection not
+       established) took their ids first: all_queries is in creation order *)
+    (match !last_view with
+     | Some v ->
+       let rec before = function
+         | [] -> ()
+         | q :: _ when q.v_id = id -> ()
+         | q :: rest ->
+           (if find_mq q.v_id = None then
+              match q.v_tok, !req_stack with
+              | Some tk, (top : pending) :: _ when top.pn_tok = tk && not top.pn_created ->
+                top.pn_created <- true;
+                let (outs, chosen) = do_new top (Some q.v_id) in
+                if outs <> [] then diff "model answers t%d from the cache, implementation created a query" tk;
+                (match chosen with
+                 | Some c when c <> q.v_id -> diff "generate_unique_qid: model chose %d, implementation %d" c q.v_id
+                 | _ -> ());
+                last_new := find_mq q.v_id
+              | _ -> ());
+           before rest in
+       before v.vqs
+     | None -> ());
+    if pn.pn_tok < 0 then Hashtbl.replace feats (if vnore then "probe" else "internal") ();
+    let (outs, chosen) = do_new ~internal:(pn.pn_tok < 0 && vnore) pn (Some id) in
+    if outs <> [] then diff "model answers the request behind transmission id=%d from the cache, implementation transmitted" id;
+    (match chosen with
+     | Some c when c <> id -> diff "generate_unique_qid: model chose %d, implementation %d" c id
+     | _ -> ());
+    last_new := find_mq id;
+    if find_conn !st (zi t.t_sock) = None then
+      ignore (apply (EOpenConn (zi t.t_sock, zi t.t_srv, t.t_tcp)) (Printf.sprintf "EOpenConn s%d" t.t_sock));
+    ignore (apply (EAssign (zi id, zi t.t_sock, (match t.t_msg.m_cookie with Some l -> Some (List.map zi l) | None -> None)))
+              (Printf.sprintf "EAssign %d s%d" id t.t_sock)) in
+  let tag_re = Str.regexp ":11\\.\\([0-9]+\\)\\.\\([0-9]+\\)\\.\\([0-9]+\\)[],/:]" in
+  let qd_re = Str.regexp "qd=\\[\\([^]/]*\\)/\\([A-Z0-9]+\\)/\\([A-Z0-9]+\\)\\]" in
   let stop = ref false in
+  let larr = Array.of_list lines in
+  let first_word i = if i < Array.length larr then (match words larr.(i) with w :: _ -> w | [] -> "") else "END" in
   (try
-    List.iter (fun line ->
+    Array.iteri (fun li line ->
       if not !stop then begin
         let ws = words line in
-        let implicit_sync () = if !dirty then (match !last_view with Some v -> sync v | None -> ()) in
+        let implicit_sync () = if !dirty || not (Queue.is_empty pending_reads) then (match !last_view with Some v -> real_sync v | None -> flush_reads ()) in
         (match ws with
          | "OP" :: _ -> implicit_sync ()
          | "RECVFROM" :: s :: _ -> if !prev_recv <> sock_idx s then implicit_sync ()
@@ -430,20 +533,45 @@ let run_case k (caseline : string) (lines : string list) =
           (match split_on '.' t with
            | [ms; us] -> clock_us := int_of_string ms * 1000 + int_of_string us
            | _ -> ())
-        | "REQ" :: tok :: "send" :: name :: cls :: typ :: fl ->
+        | "REQ" :: tok :: kind :: args ->
           let t = int_of_string (String.sub tok 1 (String.length tok - 1)) in
-          cur_req := Some { pn_tok = t; pn_name = (if name = "-" then "" else name); pn_type = type_num typ; pn_class = class_num cls;
-                            pn_rd = List.mem "rd" fl; pn_cd = List.mem "cd" fl;
-                            pn_edns = List.exists (fun w -> starts_with "edns" w) fl;
-                            pn_tx = None; pn_cb_nodata = None; pn_hit = false }
-        | "REQ" :: _ -> raise (Unsupported "request kind")
+          let mk name cls typ fl wrapped =
+            { pn_tok = t; pn_name = (if name = "-" then "" else name); pn_type = type_num typ; pn_class = class_num cls;
+              pn_rd = List.mem "rd" fl || wrapped; pn_cd = List.mem "cd" fl;
+              pn_edns = List.exists (fun w -> starts_with "edns" w) fl;
+              pn_tx = None; pn_cb_nodata = None; pn_hit = false; pn_created = wrapped; pn_wrapped = wrapped } in
+          if !req_stack <> [] || not (Queue.is_empty pending_reads) || not (Queue.is_empty expected) then Hashtbl.replace feats "reentrant" ();
+          (match kind, args with
+           | "send", name :: cls :: typ :: fl -> req_stack := mk name cls typ fl false :: !req_stack
+           | ("query" | "search"), name :: cls :: typ :: fl ->
+             Hashtbl.replace wrapped_tok t (); Hashtbl.replace feats kind ();
+             req_stack := mk name cls typ fl true :: !req_stack
+           | "gai", name :: _ ->
+             Hashtbl.replace wrapped_tok t (); Hashtbl.replace feats "gai" ();
+             req_stack := mk name "IN" "A" [] true :: !req_stack
+           | _ -> raise (Unsupported "request kind"))
         | "RET" :: _ ->
-          (match !cur_req with Some pn -> pending_new := pn :: !pending_new | None -> ());
-          cur_req := None
+          (match !req_stack with
+           | pn :: rest ->
+             req_stack := rest;
+             if not pn.pn_created && not pn.pn_hit then pending_new := pn :: !pending_new
+           | [] -> ())
         | "SOCKET" :: s :: _ :: ty :: _ when starts_with "s" s ->
           Hashtbl.replace sock_tcp (sock_idx s) (ty = "type=tcp")
         | "CONNECT" :: s :: addr :: _ -> Hashtbl.replace sock_peer (sock_idx s) (addr_id (strip_port addr))
-        | "CLOSE" :: s :: _ -> Queue.clear (queue_of (sock_idx s))
+        | "CLOSE" :: s :: _ ->
+          Queue.clear (queue_of (sock_idx s));
+          if !in_cancel then begin
+            (* closed from inside a callback (ares_cancel): read_answers drops what is left of the
+               batch it read from this socket *)
+            let keep = Queue.create () in
+            Queue.iter (fun (sk, x) -> if sk = sock_idx s then bump "discarded-after-close" else Queue.add (sk, x) keep) pending_reads;
+            Queue.clear pending_reads; Queue.transfer keep pending_reads
+          end else
+            (* the regular clean-up comes after every read of this call has been processed *)
+            flush_reads ()
+        | "CANCEL" :: "begin" :: _ -> in_cancel := true
+        | "CANCEL" :: "end" :: _ -> in_cancel := false
         | "TX" :: x :: s :: rest ->
           let j = int_of_string (String.sub x 1 (String.length x - 1)) in
           let hex = match field rest "hex" with Some h -> h | None -> "" in
@@ -453,8 +581,26 @@ let run_case k (caseline : string) (lines : string list) =
              let srv = match field rest "srv" with Some "-" | None -> -1 | Some v -> int_of_string v in
              let t = { t_sock = sock_idx s; t_srv = srv; t_tcp = field rest "proto" = Some "tcp"; t_msg = m } in
              Hashtbl.replace txs j t;
-             seg_tx := (m.m_id, t) :: !seg_tx;
-             (match !cur_req with Some pn when pn.pn_tx = None -> pn.pn_tx <- Some t | _ -> ()))
+             if srv < 0 then raise (Unsupported "transmission to an unknown server");
+             if find_mq m.m_id <> None then begin
+               (* re-transmission of a live query: inside a read batch this is the requeue flush (or
+                  the re-send after a connection error), which comes after the whole batch *)
+               flush_reads ();
+               seg_tx := (m.m_id, t) :: !seg_tx
+             end else if not (match !last_view with Some v -> List.exists (fun q -> q.v_id = m.m_id) v.vqs | None -> false) then
+               (* neither the model nor the implementation has a query with this id: bytes of a
+                  query that ended while they sat in a TCP connection's output buffer *)
+               bump "stale-transmission"
+             else begin
+               (* a new query.  Inside a read batch it was submitted from a callback: some packet
+                  of the batch must have been delivered first *)
+               while !batch_callbacks = 0 && not (Queue.is_empty pending_reads) && !req_stack = [] do feed_one () done;
+               if find_mq m.m_id <> None then seg_tx := (m.m_id, t) :: !seg_tx
+               else begin
+                 seg_tx := (m.m_id, t) :: !seg_tx;
+                 create_from_tx t
+               end
+             end)
         | "RSP" :: _ :: s :: rest ->
           if not (List.mem "DROPPED=closed" rest) then begin
             let sk = sock_idx s in
@@ -475,7 +621,13 @@ let run_case k (caseline : string) (lines : string list) =
               | _ -> raise (Unsupported "raw op") in
             Queue.add (hex_decode hex, src) (queue_of sk)
           end
-        | "QSTATE" :: _ -> sync (parse_view line)
+        | "QSTATE" :: _ ->
+          let v = parse_view line in
+          (* a dump taken at asendto (in the middle of whatever is going on) only informs about the
+             new query; dumps taken before a read batch or after an op are synchronisation points *)
+          (match first_word (li + 1) with
+           | "SENDTO" | "USEAFTERCLOSE" -> last_view := Some v
+           | _ -> real_sync v)
         | "RECVFROM" :: s :: rc :: rest ->
           let sk = sock_idx s in
           let n = match kv rc with Some ("rc", v) -> int_of_string v | _ -> -1 in
@@ -489,29 +641,41 @@ let run_case k (caseline : string) (lines : string list) =
                 let (b, src) = Queue.pop q in total := !total + Array.length b + 2; frames := (b, src) :: !frames
               done;
               if !total <> n then raise (Unsupported "partial TCP frame");
-              List.iter (feed sk) (List.rev !frames)
+              List.iter (fun x -> Queue.add (sk, x) pending_reads) (List.rev !frames)
             end else begin
               if Queue.is_empty q then raise (Unsupported "datagram of unknown origin");
               let (b, src) = Queue.pop q in
               if Array.length b <> n then raise (Unsupported "datagram length mismatch");
-              feed sk (b, src)
+              Queue.add (sk, (b, src)) pending_reads
             end
           end
         | "SERVERSTATE" :: addr :: succ :: _ ->
+          let addr = Str.global_substitute (Str.regexp "%\\([0-9A-Fa-f][0-9A-Fa-f]\\)")
+              (fun m -> String.make 1 (Char.chr (int_of_string ("0x" ^ Str.matched_group 1 m)))) addr in
           let a = addr_id (strip_port addr) in
           let srv = let rec f i = if i >= nservers then -1 else if srv_addr i = a then i else f (i + 1) in f 0 in
-          skip_unobservable ();
+          want_output ();
           if succ = "success=1" then begin
             (match (if Queue.is_empty expected then None else Some (Queue.peek expected)) with
              | Some (OServerGood (s, _)) when iz s = srv -> ignore (Queue.pop expected)
              | _ -> Printf.printf "DIFF %d server %d marked good, not predicted by the model\n" k srv; Hashtbl.replace feats "diff" ());
             (* monitor: the mark needs a packet read on one of this server's sockets since the last
                state dump that is authentic for some live query (each packet justifies one mark) *)
+            let auth r = authentic_for cfg r.r_snap (zi r.r_sock) (zi r.r_src) r.r_pkt <> None
+                         || authentic_for cfg r.r_now (zi r.r_sock) (zi r.r_src) r.r_pkt <> None in
             (match List.find_opt (fun r ->
                  (not (List.mem (iz r.r_pkt.p_tag) !marks_used)) &&
                  (match find_conn r.r_snap (zi r.r_sock) with Some cn -> iz cn.cn_server = srv | None -> false) &&
-                 authentic_for cfg r.r_snap (zi r.r_sock) (zi r.r_src) r.r_pkt <> None) (List.rev !seg_reads) with
-             | Some r -> marks_used := iz r.r_pkt.p_tag :: !marks_used
+                 auth r) (List.rev !seg_reads) with
+             | Some r ->
+               marks_used := iz r.r_pkt.p_tag :: !marks_used;
+               (* a record that justified a success mark was accepted, possibly for a query of the
+                  library's own (server probe, search candidate: no CB line) - and may have entered
+                  the cache *)
+               (match (match find_query r.r_snap r.r_pkt.p_id with Some q -> Some q | None -> find_query r.r_now r.r_pkt.p_id) with
+                | Some q -> Hashtbl.replace auth_delivered (iz r.r_pkt.p_tag)
+                              (List.map (fun qn -> (string_of_bytes qn.qn_name, iz qn.qn_type, iz qn.qn_class)) q.q_qd)
+                | None -> ())
              | None -> fail "unauthentic-success-mark" "server %d marked good although no authentic packet was read on its sockets" srv)
           end else begin
             match (if Queue.is_empty expected then None else Some (Queue.peek expected)) with
@@ -521,12 +685,18 @@ let run_case k (caseline : string) (lines : string list) =
         | "CB" :: tok :: status :: rest ->
           let t = int_of_string (String.sub tok 1 (String.length tok - 1)) in
           let status = match kv status with Some (_, v) -> int_of_string v | None -> -1 in
-          let has_rec = not (List.mem "rec=-" rest) in
+          let has_rec = not (List.mem "rec=-" rest || List.mem "ai=-" rest || List.mem "abuf=-" rest || List.mem "host=-" rest) in
+          let wrapped = Hashtbl.mem wrapped_tok t in
           let tag = match Str.search_forward tag_re line 0 with
             | exception Not_found -> None
             | _ -> Some (int_of_string (Str.matched_group 1 line) * 65536 + int_of_string (Str.matched_group 2 line) * 256
                          + int_of_string (Str.matched_group 3 line)) in
+          let in_req = (match !req_stack with pn :: _ when pn.pn_tok = t -> Some pn | _ -> None) in
           if not has_rec then begin
+            (* no feeding here: a callback without a record that the accept path causes follows a
+               failure mark (which has already pulled the packet in); anything else is a send-side
+               end (time-out, cancel from a callback) that must take effect before the rest of the
+               batch is processed *)
             skip_unobservable ();
             (* callbacks without a record: the order among them (order of the connection's own
                query list) is not modelled, take the first matching prediction *)
@@ -538,15 +708,29 @@ let run_case k (caseline : string) (lines : string list) =
             (match !found with
              | true -> Queue.clear expected; Queue.transfer rest expected
              | false ->
-               (match !cur_req with
-                | Some pn when pn.pn_tok = t -> pn.pn_cb_nodata <- Some status
-                | _ -> ended_nodata := (t, status) :: !ended_nodata))
+               (match in_req with
+                | Some pn -> pn.pn_cb_nodata <- Some status
+                | None ->
+                  if not wrapped then begin
+                    (* an end the accept path did not cause (time-out, cancel, send failure): it
+                       takes effect now - packets still to be processed no longer find the query *)
+                    match List.find_opt (fun q -> iz q.q_tok = t) !st.ch_queries with
+                    | Some q -> ignore (apply (EEnd (q.q_qid, zi status)) "EEnd")
+                    | None -> ended_nodata := (t, status) :: !ended_nodata
+                  end))
           end else begin
             incr n_deliv;
-            match !cur_req with
-            | Some pn when pn.pn_tok = t ->
-              (* answered synchronously inside ares_send: a cache hit *)
+            match in_req with
+            | Some pn ->
+              (* answered synchronously inside the request call: a cache hit *)
               incr n_hit; pn.pn_hit <- true; Hashtbl.replace feats "cachehit" ();
+              (* the question the cache was asked: for ares_send the request itself, for the
+                 wrapped kinds (query/search/getaddrinfo) the question of the record served *)
+              let asked = if not pn.pn_wrapped then Some (pn.pn_name, pn.pn_type, pn.pn_class) else
+                  (match Str.search_forward qd_re line 0 with
+                   | exception Not_found -> None
+                   | _ -> (try Some (Str.matched_group 1 line, type_num (Str.matched_group 2 line), class_num (Str.matched_group 3 line))
+                           with _ -> None)) in
               (match tag with
                | None -> fail "untagged-delivery" "t%d served a record that carries no provenance tag" t
                | Some tg ->
@@ -555,32 +739,47 @@ let run_case k (caseline : string) (lines : string list) =
                   | Some qd ->
                     let low s = String.lowercase_ascii s in
                     let strip s = if s <> "" && s.[String.length s - 1] = '.' then String.sub s 0 (String.length s - 1) else s in
-                    (match qd with
-                     | [(nm, ty, cl)] when low (strip nm) = low (strip pn.pn_name) && ty = pn.pn_type && cl = pn.pn_class -> ()
+                    (match qd, asked with
+                     | [(nm, ty, cl)], Some (an, aty, acl) when low (strip nm) = low (strip an) && ty = aty && cl = acl -> ()
+                     | _, None -> ()
                      | _ -> fail "cache-wrong-question" "t%d (%s type %d) served the cached answer of another question" t pn.pn_name pn.pn_type)));
-              let (outs, _) = do_new pn None in
-              (match outs, tag with
-               | [OCallback (mt, ms, Some mtag)], Some tg when iz mt = t && iz ms = status && iz mtag = tg -> ()
-               | [OCallback (_, _, Some mtag)], _ -> diff "cache hit for t%d: model serves packet %d, implementation %s" t (iz mtag)
-                                                       (match tag with Some tg -> string_of_int tg | None -> "untagged")
-               | _, _ -> diff "implementation serves t%d from the cache, model does not" t)
-            | _ ->
+              (match asked with
+               | None -> ()      (* addrinfo results do not show the question: no prediction *)
+               | Some (an, aty, acl) ->
+                 let pn' = { pn with pn_name = an; pn_type = aty; pn_class = acl; pn_tx = None } in
+                 let (outs, _) = do_new pn' None in
+                 (match outs, tag with
+                  | [OCallback (mt, ms, Some mtag)], Some tg when iz mt = t && (pn.pn_wrapped || iz ms = status) && iz mtag = tg -> ()
+                  | [OCallback (_, _, Some mtag)], _ -> diff "cache hit for t%d: model serves packet %d, implementation %s" t (iz mtag)
+                                                          (match tag with Some tg -> string_of_int tg | None -> "untagged")
+                  | _, _ -> diff "implementation serves t%d from the cache, model does not" t))
+            | None ->
+              want_output ();
+              (* for a wrapped request the record reaches the user through the library's own
+                 callback: feed until the model has delivered it there *)
+              (match tag with
+               | Some tg when wrapped ->
+                 while not (Hashtbl.mem internal_delivered tg) && not (Queue.is_empty pending_reads) do feed_one () done
+               | _ -> ());
               (* monitor *)
               (match tag with
                | None -> fail "untagged-delivery" "t%d received a record that carries no provenance tag" t
                | Some tg ->
                  let reads = List.filter (fun r -> iz r.r_pkt.p_tag = tg) !seg_reads in
                  (match reads with
-                  | [] -> fail "unauthentic-delivery" "t%d received the record of packet %d, which was not read since the last state dump" t tg
+                  | [] ->
+                    if not (wrapped && Hashtbl.mem auth_delivered tg) then
+                      fail "unauthentic-delivery" "t%d received the record of packet %d, which was not read since the last state dump" t tg
                   | _ ->
+                    let ok_tok = function Some tok -> wrapped || iz tok = t | None -> false in
                     let ok = List.exists (fun r ->
-                        match authentic_for cfg r.r_snap (zi r.r_sock) (zi r.r_src) r.r_pkt with
-                        | Some tok -> iz tok = t
-                        | None -> false) reads in
+                        ok_tok (authentic_for cfg r.r_snap (zi r.r_sock) (zi r.r_src) r.r_pkt)
+                        || ok_tok (authentic_for cfg r.r_now (zi r.r_sock) (zi r.r_src) r.r_pkt)) reads in
                     if ok then begin
                       let r = List.hd reads in
+                      let q0 = (match find_query r.r_snap r.r_pkt.p_id with Some q -> Some q | None -> find_query r.r_now r.r_pkt.p_id) in
                       let qd = List.map (fun q -> (string_of_bytes q.qn_name, iz q.qn_type, iz q.qn_class))
-                          (match List.find_opt (fun q -> iz q.q_tok = t) r.r_snap.ch_queries with Some q -> q.q_qd | None -> []) in
+                          (match q0 with Some q -> q.q_qd | None -> []) in
                       Hashtbl.replace auth_delivered tg qd
                     end else begin
                       let r = List.hd reads in
@@ -591,19 +790,26 @@ let run_case k (caseline : string) (lines : string list) =
                                       | 0 -> "authentic for another token" | _ -> "unknown connection")
                     end));
               (* correspondence *)
-              skip_unobservable ();
-              (match (if Queue.is_empty expected then None else Some (Queue.peek expected)), tag with
-               | Some (OCallback (mt, ms, Some mtag)), Some tg when iz mt = t && iz mtag = tg ->
-                 ignore (Queue.pop expected);
-                 if iz ms <> status then diff "t%d delivered with status %d, model %d" t status (iz ms)
-               | _, _ -> diff "t%d received a record (status %d, packet %s) that the model does not deliver" t status
-                           (match tag with Some tg -> string_of_int tg | None -> "untagged"))
+              if wrapped then begin
+                match tag with
+                | Some tg when Hashtbl.mem internal_delivered tg -> ()
+                | _ -> diff "t%d (wrapped request) received a record (status %d, packet %s) that the model never handed to the library's callback" t status
+                         (match tag with Some tg -> string_of_int tg | None -> "untagged")
+              end else begin
+                skip_unobservable ();
+                (match (if Queue.is_empty expected then None else Some (Queue.peek expected)), tag with
+                 | Some (OCallback (mt, ms, Some mtag)), Some tg when iz mt = t && iz mtag = tg ->
+                   ignore (Queue.pop expected);
+                   if iz ms <> status then diff "t%d delivered with status %d, model %d" t status (iz ms)
+                 | _, _ -> diff "t%d received a record (status %d, packet %s) that the model does not deliver" t status
+                             (match tag with Some tg -> string_of_int tg | None -> "untagged"))
+              end
           end
         | "DESTROY" :: _ -> stop := true
         | "BADOP" :: _ -> bump "badop"
         | "INIT" :: rc :: _ -> if rc <> "rc=0" then raise (Unsupported "init failed")
         | _ -> ()
-      end) lines;
+      end) larr;
     let f = String.concat "" (List.map (fun x -> "+" ^ x) (List.sort compare (Hashtbl.fold (fun k' () acc -> k' :: acc) feats []))) in
     if !n_read = 0 then Printf.printf "CASE %d trivial-noread-%s\n" k !label
     else Printf.printf "CASE %d %s%s%s\n" k !label (if !n_deliv > 0 then "+deliv" else "") f
